@@ -41,8 +41,8 @@ def toLbls (o : FObj) (e : Driver.Ev) : Option (List Lbl) :=
     | _, _ => some []
   else if e.a == o.c0 || e.a == o.c1 then
     match e.pt, e.cur, parseOpt e.b with
-    | "WAKE_DEQ", some t, some x => some [.sig t x]
-    | "WAKE_DEQ", _, _ => none
+    | "SQ_DEQ", some t, some x => some [.sig t x]
+    | "SQ_DEQ", _, _ => none
     | _, _, _ => some []
   else some []
 
